@@ -46,10 +46,10 @@ CLAIMED = {
         text=("Theorems (Coq, no axioms) over an executable model of _markup.py and _parser.py: every Markdown() call restores the indentation stack, so conversions are "
               "deterministic and history independent; under the guard 'no repeated title under one parent' (finding D20) the parsed card has exactly one section per header, nested "
               "under the nearest preceding lower-level header, title verbatim, content = the texts of the following blocks, each once, in order; render headings and TOC equal that "
-              "outline; totality for documents of individually convertible blocks; refuted witnesses for D20/D27/D28. Correspondence-only: that the model equals the implementation "
+              "outline; totality for documents of individually convertible blocks; refuted witnesses for D20/D28; the former D27 witness (badge in a line of text) converts. Correspondence-only: that the model equals the implementation "
               "(result class, toc, render, sections, select; ~430 generated documents and ~670 single conversions per quick run) and PrettyTable's table text."),
         note=("Trusted: Coq kernel/vm_compute; generator and JSON-to-Coq translation in harness/props/c15.py; canonicaliser in harness/impl_parser.py; pretty_md models PrettyTable "
-              "only for single-width characters. Fixes D18/D19/D21 committed in /repo; D20/D27/D28 are open known findings."),
+              "only for single-width characters. Fixes D18/D19/D21/D27 committed in /repo; D20/D28 are open known findings."),
         ref="DESIGN.md section 4 C15"),
     "C09": dict(
         technique='Coq proof over an executable model of the card section tree + model/implementation correspondence on random operation sequences',
